@@ -61,6 +61,9 @@ def run(check: Check, repo: Repo, tier: str) -> None:
     X.collect_guard(check, repo)
     X.source_siblings(check, repo)
     X.leaf_always_coerced(check, repo)
+    from rules import stream_rules as T5
+
+    T5.field_lookup_by_name(check, repo)
     from rules import coercion_rules as K
 
     K.sibling_atoms(check, repo)
